@@ -160,9 +160,9 @@ func (c *Ctx) N(quick, thorough int) int {
 
 func (c *Ctx) Rand(salt ...string) *Rand { return NewRand(c.Seed, append([]string{c.ID}, salt...)...) }
 
-func (c *Ctx) Eval(n int)                 { c.mu.Lock(); c.evals += n; c.mu.Unlock() }
-func (c *Ctx) Count(k string, n int64)    { c.mu.Lock(); c.counters[k] += n; c.mu.Unlock() }
-func (c *Ctx) Counter(k string) int64     { c.mu.Lock(); defer c.mu.Unlock(); return c.counters[k] }
+func (c *Ctx) Eval(n int)                    { c.mu.Lock(); c.evals += n; c.mu.Unlock() }
+func (c *Ctx) Count(k string, n int64)       { c.mu.Lock(); c.counters[k] += n; c.mu.Unlock() }
+func (c *Ctx) Counter(k string) int64        { c.mu.Lock(); defer c.mu.Unlock(); return c.counters[k] }
 func (c *Ctx) Extra(k string, v interface{}) { c.mu.Lock(); c.extra[k] = v; c.mu.Unlock() }
 
 // Nontrivial registers a case (by a key describing it) as non-trivial.
@@ -358,6 +358,7 @@ type ProcResult struct {
 	TimedOut       bool   // the watchdog fired
 	Dump           string // goroutine dump obtained with SIGQUIT when the watchdog fired
 	Dur            time.Duration
+	Pgid           int // process group of the child
 }
 
 type Proc struct {
@@ -366,6 +367,9 @@ type Proc struct {
 	Env     []string // complete environment
 	Stdin   []byte
 	Timeout time.Duration
+	// KeepGroup: after a normal exit the rest of the process group is left alone (the caller examines what the
+	// child left behind and kills ProcResult.Pgid itself)
+	KeepGroup bool
 }
 
 // Run runs a child in its own process group under a watchdog. When the
@@ -414,7 +418,10 @@ func (p Proc) Run() ProcResult {
 		res.Dump = se.String()
 	}
 	// make sure nothing of the group survives
-	syscall.Kill(-cmd.Process.Pid, syscall.SIGKILL)
+	res.Pgid = cmd.Process.Pid
+	if !p.KeepGroup || res.TimedOut {
+		syscall.Kill(-cmd.Process.Pid, syscall.SIGKILL)
+	}
 	res.Dur = time.Since(t0)
 	res.Stdout, res.Stderr = so.Bytes(), se.Bytes()
 	if err != nil {
@@ -446,7 +453,11 @@ func (l *lockedBuf) Write(p []byte) (int, error) {
 	}
 	return len(p), nil
 }
-func (l *lockedBuf) Bytes() []byte  { l.mu.Lock(); defer l.mu.Unlock(); return append([]byte(nil), l.b.Bytes()...) }
+func (l *lockedBuf) Bytes() []byte {
+	l.mu.Lock()
+	defer l.mu.Unlock()
+	return append([]byte(nil), l.b.Bytes()...)
+}
 func (l *lockedBuf) String() string { return string(l.Bytes()) }
 
 // Crashed reports whether a Go child died abnormally: panic, fatal error,
